@@ -15,7 +15,7 @@ MAP_TRACED = ("/tracklib/algo/mapping.py", "/tracklib/algo/dynamics.py")
 C06_OPS = ("dist", "dist_all", "all_pairs", "prepare", "prepared")
 C07_OPS = ("path", "path_multi", "forward", "backward")
 C10_OPS = ("map", "remap", "map_span")
-OTHER_OPS = ("add_edge", "reload", "index", "simplify", "sub_network", "set_weight", "save_prep", "load_prep", "rescale", "abs_again", "set_routing", "save_index", "load_index", "break_weight", "inspect_edge", "annotate_edges")
+OTHER_OPS = ("add_edge", "reload", "index", "simplify", "sub_network", "set_weight", "save_prep", "load_prep", "rescale", "abs_again", "set_routing", "save_index", "load_index", "break_weight", "inspect_edge", "annotate_edges", "load_copy", "geo_roundtrip")
 
 
 def _wchoice(r, pairs):
@@ -113,6 +113,7 @@ class NetWorld(World):
                 "int_ids": (not road) and r.random() < 0.3,
                 "reweigh": r.choice([0, 0.05, 0.15]), "routing": r.choice([0, 0, 0.04, 0.1]),
                 "empty_id": r.random() < 0.15, "travel_time": r.random() < 0.3,
+                "tiny_w": (not road) and (not hub) and r.random() < 0.12,
                 "tmode": r.choice(["inc", "inc", "rev", "same"]), "persist": r.choice([0, 0, 0.05, 0.12]),
                 "rescale": r.choice([0, 0.05, 0.15]),
                 "alt": r.choice([0.0, 0.0, 35.5]), "prep_cut": r.choice([None, None, 3.0, 10.0]),
@@ -336,7 +337,7 @@ class NetWorld(World):
                 return {"op": "set_routing", "s": s, "mode": k, "wgt": r.choice([0, 0.5, 1, 2]),
                         "value": r.choice(["ROUTING_ALGO_ASTAR", "astar", 7, None])}
             if m.get("broken") is not None and r.random() < 0.5:
-                return {"op": "set_weight", "s": s, "e": m["broken"], "w": r.choice([0.5, 1, 2, 3])}
+                return {"op": "set_weight", "s": s, "e": m["broken"], "w": r.choice([0.5, 1, 2, 3]) * self._ws()}
             if r.random() < self.cfg.get("reweigh", 0) * 0.3 and not self.cfg["road"] and m.get("broken") is None:
                 return {"op": "break_weight", "s": s, "e": r.randrange(64)}
             if r.random() < 0.05:
@@ -346,7 +347,7 @@ class NetWorld(World):
             u = r.random()
             if u < self.cfg.get("reweigh", 0) and not self.cfg["road"]:
                 return {"op": "set_weight", "s": s, "e": r.randrange(64),
-                        "w": r.choice([0, 0.25, 0.5, 1, 2, 3, 4, 6, 10])}
+                        "w": r.choice([0, 0.25, 0.5, 1, 2, 3, 4, 6, 10]) * self._ws()}
             if u < self.cfg.get("reweigh", 0) + self.cfg.get("persist", 0):
                 k = r.random()
                 st = {"op": "save_prep" if k < 0.45 else "load_prep", "s": s, "slot": r.randrange(2)}
@@ -375,8 +376,15 @@ class NetWorld(World):
                         {"op": "abs_again", "s": st["to"], "twice": False}])
                     self.pendq.setdefault(s, []).append({"op": "abs_again", "s": s, "twice": False})
                 return st
+            if r.random() < self.cfg["reload"] and self.cfg["sessions"] > 1 and r.random() < 0.4:
+                return {"op": "load_copy", "s": s, "from": (s + 1) % self.cfg["sessions"]}
+            if self.cfg["road"] and r.random() < self.cfg["reload"] * 0.5:
+                return {"op": "geo_roundtrip", "s": s, "sep": r.choice([",", ";"])}
             if r.random() < self.cfg["reload"]:
-                st = {"op": "reload", "s": s, "sep": r.choice([",", ";"]), "weights": r.random() < 0.5}
+                perm = list(range(6))
+                if r.random() < 0.5:
+                    r.shuffle(perm)
+                st = {"op": "reload", "s": s, "sep": r.choice([",", ";"]), "weights": r.random() < 0.5, "perm": perm}
                 if r.random() < self.cfg["fault_rate"]:
                     k = r.choice(["open_error", "write_error", "close_error", "read_error", "interrupt"])
                     st["fault"] = {"kind": k, "at": r.choice([1, 1, 2, 3]), "errno": 5}
@@ -457,9 +465,13 @@ class NetWorld(World):
         if d and r.random() < 0.6:
             v = r.choice(sorted(d))
             if m["exact"]:
-                return r.choice([v, v, v - 0.25, v + 0.25])
+                return r.choice([v, v, v - 0.25 * self._ws(), v + 0.25 * self._ws()])
             return r.choice([v * 0.999, v * 1.001])
-        return r.choice([0, 0.5, 1, 2, 3, 5, 1e300])
+        return r.choice([0, 0.5 * self._ws(), 1 * self._ws(), 2 * self._ws(), 3 * self._ws(), 5 * self._ws(), 1e300])
+
+    def _ws(self):
+        """Weight unit of the run: 1, or 2**-34 (travel times in tiny units: sums stay exact)."""
+        return 2.0 ** -34 if self.cfg.get("tiny_w") else 1.0
 
     def _gen_radius(self, r):
         st = self.cfg["step"]
@@ -508,6 +520,7 @@ class NetWorld(World):
                 a, b = (e0["s"], e0["t"]) if r.random() < 0.7 else (e0["t"], e0["s"])
             between = [e["w"] for e in m["edges"] if {e["s"], e["t"]} == {a, b}]
             w = max(0.25, min(between) - r.choice([0.25, 0.5, 1])) if between else r.choice([6, 8, 10, 12, 16])
+        w = w * self._ws()
         o = r.choice([1, -1]) if r.random() < cfg["oneway"] else 0
         mids = [[r.randint(0, 9) + 0.25, r.randint(0, 9) + 0.75] for _ in range(r.choice([0, 0, 1, 2]))]
         st.update({"src": a, "tgt": b, "psrc": [float(r.randint(0, 9)), float(r.randint(0, 9))],
@@ -960,7 +973,13 @@ class NetWorld(World):
             self.fail("C07", "path.weight", "%s: weights along %s do not sum to the shortest distance" % (where, path),
                       d, sorted(set(tw for tw, _ in states))[:5], zero_weight_edges=zero)
             return False
-        if not any([list(p) for p in geo] == coords for geo in okw):
+        def same(geo):
+            if not m.get("ragged"):
+                return [list(p) for p in geo] == coords
+            # after a geographic round trip the end vertices of the edges meeting at a junction differ
+            # in the last digits: the chain is compared to a micrometre
+            return len(geo) == len(coords) and all(math.dist(p, c) <= 1e-6 for p, c in zip(geo, coords))
+        if not any(same(geo) for geo in okw):
             self.fail("C07", "path.geometry", "%s: geometry of %s is not the chained, travel-oriented edge polylines"
                       % (where, path), [list(p) for p in okw[0]], coords, zero_weight_edges=zero)
             return False
@@ -989,12 +1008,16 @@ class NetWorld(World):
             self.stats["fault_armed:" + st["fault"]["kind"]] += 1
         with_w = bool(st.get("weights")) and m["exact"]
 
+        fmtbox = {}
+        getattr(self, "netfiles", {}).pop(st.get("s", 0), None)      # the file is about to be overwritten
+
         def write_then_read():
             NetworkWriter.writeToCsv(net, path, st["sep"], 1)
             if with_w:
                 # another program adds a weight column to the file (the writer has none): the weights
                 # of the model, printed exactly, zeros included
                 lines = self.fs.files[path].split("\n")
+                perm = st.get("perm") or list(range(6))          # perm[c] = column where field c goes
                 out = []
                 for k, ln in enumerate(lines):
                     if not ln:
@@ -1002,13 +1025,21 @@ class NetWorld(World):
                         continue
                     parts = ln.split(st["sep"], 4)
                     w = "weight" if k == 0 else repr(float(m["edges"][k - 1]["w"]))
-                    out.append(st["sep"].join(parts[:4] + [w, parts[4]]))
+                    fields = parts[:4] + [w, parts[4]]            # id, source, target, direction, weight, wkt
+                    row = [None] * 6
+                    for c, v in enumerate(fields):
+                        row[perm[c]] = v
+                    out.append(st["sep"].join(row))
                 self.fs.files[path] = "\n".join(out)
-                fmt = NetworkFormat({"pos_edge_id": 0, "pos_source": 1, "pos_target": 2, "pos_direction": 3,
-                                     "pos_weight": 4, "pos_wkt": 5, "separator": st["sep"], "header": 1, "srid": "ENU"})
+                if perm != list(range(6)):
+                    self.probe("network_file_with_columns_in_another_order")
+                fmt = NetworkFormat({"pos_edge_id": perm[0], "pos_source": perm[1], "pos_target": perm[2],
+                                     "pos_direction": perm[3], "pos_weight": perm[4], "pos_wkt": perm[5],
+                                     "separator": st["sep"], "header": 1, "srid": "ENU"})
             else:
                 fmt = NetworkFormat({"pos_edge_id": 0, "pos_source": 1, "pos_target": 2, "pos_direction": 3,
                                      "pos_wkt": 4, "separator": st["sep"], "header": 1, "srid": "ENU"})
+            fmtbox["fmt"] = fmt
             return NetworkReader.readFromFile(path, fmt, False)
         if (st.get("fault") or {}).get("kind") == "interrupt":
             with simfs.Interrupter(self.fs.plan):
@@ -1040,11 +1071,93 @@ class NetWorld(World):
         for k in [k for k in self.tracks if k[0] == st.get("s", 0)]:
             del self.tracks[k]
         self.probe("network_loaded_from_disk")
+        import copy as _copy
+        if not hasattr(self, "netfiles"):
+            self.netfiles = {}
+        self.netfiles[st.get("s", 0)] = {"path": path, "fmt": fmtbox.get("fmt"), "model": _copy.deepcopy(m)}
         # structure of the loaded network
         got = [[e.id, e.source.id, e.target.id, e.orientation] for e in (new.getEdge(i) for i in new.getEdgesId())]
         exp = [[e["id"], e["s"], e["t"], e["o"]] for e in m["edges"]]
         if got != exp:
             self.fail("C06", "network.reload_structure", "edges of the reloaded network", exp, got)
+
+    def op_load_copy(self, st):
+        """A second user loads the file the other session's network was last written to: two
+        independent networks read from the same text."""
+        from tracklib.io.network_reader import NetworkReader
+        import copy as _copy
+        s, src = st.get("s", 0), st["from"]
+        f = getattr(self, "netfiles", {}).get(src)
+        if f is None or f["fmt"] is None or src == s or f["path"] not in self.fs.files:
+            raise Skip()
+        new, exc = self.call(NetworkReader.readFromFile, f["path"], f["fmt"], False)
+        if exc is not None:
+            return self._unexpected("C06", exc, "readFromFile of the other session's network file")
+        self.real[s] = new
+        self.model[s] = _copy.deepcopy(f["model"])
+        for k in [k for k in self.tracks if k[0] == s]:
+            del self.tracks[k]
+        for k in [k for k, ff in getattr(self, "files", {}).items() if ff["owner"] == s]:
+            del self.files[k]
+        getattr(self, "idx_files", {}).pop("/sim/index_%d.pkl" % s, None)
+        self.probe("two_networks_read_from_the_same_file")
+
+    def op_geo_roundtrip(self, st):
+        """The network is converted to geographic coordinates, written, read back as a
+        geographic network and projected again (Network.toGeoCoords / toENUCoords): what the
+        conversions compute is C14's subject -- geometries and node positions are adopted --
+        but the abscissas the reader computed on the geographic vertices must still describe
+        the projected geometries to the tolerance of the matching oracle."""
+        from tracklib.core import GeoCoords
+        from tracklib.io.network_writer import NetworkWriter
+        from tracklib.io.network_reader import NetworkReader
+        from tracklib.io.network_format import NetworkFormat
+        net, m = self._sess(st)
+        if not m["edges"] or m.get("shared") or m.get("group") or m.get("broken") is not None \
+                or any(not isinstance(e["id"], str) for e in m["edges"]) or "" in m["nodes"]:
+            raise Skip()
+        if any(len(e["pts"]) == 2 and e["pts"][0] == e["pts"][1] for e in m["edges"]):
+            raise Skip()
+        base = GeoCoords(2.0, 48.0, 0.0)
+        path = "/sim/netgeo%d.csv" % st.get("s", 0)
+
+        def go():
+            net.toGeoCoords(base)
+            NetworkWriter.writeToCsv(net, path, st["sep"], 1)
+            fmt = NetworkFormat({"pos_edge_id": 0, "pos_source": 1, "pos_target": 2, "pos_direction": 3,
+                                 "pos_wkt": 4, "separator": st["sep"], "header": 1, "srid": "GEO"})
+            new = NetworkReader.readFromFile(path, fmt, False)
+            new.toENUCoords(base)
+            return new
+        new, exc = self.call(go)
+        if exc is not None:
+            if isinstance(exc, Exception):
+                # (the in-memory network is now geographic: this session ends here)
+                s_ = st.get("s", 0)
+                self.real.pop(s_, None)
+                self.model.pop(s_, None)
+                return "domain"
+            return self._unexpected("C10", exc, "geographic round trip of the network")
+        got = [[e.id, e.source.id, e.target.id, e.orientation] for e in (new.getEdge(i) for i in new.getEdgesId())]
+        exp = [[e["id"], e["s"], e["t"], e["o"]] for e in m["edges"]]
+        if got != exp:
+            self.fail("C06", "network.reload_structure", "edges of the network after the geographic round trip", exp, got)
+            return
+        self.real[st.get("s", 0)] = new
+        for e in m["edges"]:
+            g = new.getEdge(e["id"]).geom
+            e["pts"] = [[o.position.getX(), o.position.getY()] for o in g]
+            e["w"] = plen(e["pts"])
+            new.getEdge(e["id"]).weight = g.length()
+        for v in list(m["nodes"]):
+            c = new.getNode(v).coord
+            m["nodes"][v] = [c.getX(), c.getY()]
+        m.update({"fw": None, "index": None, "prepared": None, "ptable": None, "grown_since_prepare": False,
+                  "exact": False, "all_abs": True, "astar": False})
+        for k in [k for k in self.tracks if k[0] == st.get("s", 0)]:
+            del self.tracks[k]
+        m["ragged"] = True
+        self.probe("network_went_through_geographic_coordinates")
 
     def op_set_routing(self, st):
         """One user selects the routing algorithm of *his* network.  A* is documented as
@@ -1606,15 +1719,20 @@ class NetWorld(World):
             L = plen(pts)
             tol = 1e-6 * max(1.0, L)
             best, arcs = arcs_on_poly(q, pts, tol)
+            # a segment that is almost, but not exactly, vertical (what a vertical road becomes after a
+            # change of coordinates): the projection of the library loses digits there (known finding)
+            nearly_vertical = any(0 < abs(a[0] - b[0]) < 1e-6 * abs(a[1] - b[1]) for a, b in zip(pts, pts[1:]))
             if best > tol:
                 self.fail("C10", "map.on_edge", where + ": matched point of observation %d is not on edge %d (%s)"
                           % (k, e, m["edges"][e]["id"]), "distance to the edge geometry <= %g" % tol, best,
-                          point=list(q))
+                          point=list(q), nearly_vertical=nearly_vertical, below_1cm=best < 0.01)
                 return None
             do = math.dist(q, (x, y))
             if do > radius + 1e-9:
                 self.fail("C10", "map.radius", where + ": matched point of observation %d is farther than the search "
-                          "radius" % k, radius, do)
+                          "radius" % k, radius, do, nearly_vertical=nearly_vertical, below_1cm=(do - radius) < 0.01)
+                if nearly_vertical and (do - radius) < 0.01 and not self.violations:
+                    continue            # recorded as a known finding: the rest of the track is still judged
                 return None
             if abs(ds + dt - L) > 1e-6 * max(1.0, L):
                 self.fail("C10", "map.sum", where + ": distances to the two end nodes of edge %d do not add up to its "
